@@ -91,14 +91,17 @@ func (ctx *Context) Parse(value string) error {
 	}
 	// 设置错误消息语言
 	SetParseErrorLanguage(ctx.Config.ParseErrorLanguage)
+	verifYield("parse.lang")
 	_, err := p.parse(nil)
 	if err != nil {
 		ctx.Error = err
+		verifParsed(ctx, value, err)
 		return err
 	}
 
 	ctx.code = p.cur.data.code
 	ctx.codeIndex = p.cur.data.codeIndex
+	verifParsed(ctx, value, nil)
 
 	return nil
 }
@@ -473,6 +476,7 @@ func (ctx *Context) evaluate() {
 
 	startTime := time.Now().UnixMilli()
 	for opIndex := 0; opIndex < e.codeIndex; opIndex += 1 {
+		verifTick(ctx, opIndex)
 		numOpCountAdd(1)
 
 		if ctx.Error == nil && e.top == len(stack) {
